@@ -202,7 +202,7 @@ func DiffToks(src, out []Tok) *TokDiff {
 	if i < len(src) && i < len(out) {
 		a, b := src[i], out[i]
 		switch {
-		case a.Type == b.Type && len(b.Bytes) > len(a.Bytes) && strings.HasPrefix(b.Bytes, a.Bytes) && i+1 < len(src):
+		case a.Type == b.Type && i+1 < len(src) && len(b.Bytes) > len(a.Bytes) && strings.HasPrefix(b.Bytes, a.Bytes+src[i+1].Bytes):
 			// two source tokens that were separated by spacing now scan as one
 			d.Kind = "glued"
 			d.Class = TokName(a.Type) + "-space-" + TokName(src[i+1].Type) + "-glued"
